@@ -83,7 +83,7 @@ var c14Specs = map[string][]termSpec{
 		{"Fst", []string{"#0(p0)"}, "Fst"},
 		{"Snd", []string{"#1(p0)"}, "Snd"},
 		{"Destr2", []string{"ret(#0(p0), #1(p0))"}, "Destr2 inverse of NewTuple2"},
-		{"Destr", []string{"ret(#0(p0), #1(p0))"}, "Destr (obsolete alias) inverse of NewTuple2"},
+		{"Destr", []string{"ret(#0(p0), #1(p0))", "Destr2(p0)"}, "Destr (obsolete alias) inverse of NewTuple2"},
 		{"Destr3", []string{"ret(#0(p0), #1(p0), #2(p0))"}, "Destr3 inverse of NewTuple3"},
 		{"Assert", []string{"if(not(p0), seq[panic(p1)], seq[])"}, "panics iff !cond"},
 		{"Panic", []string{"seq[panic(p0)]"}, "Panic"},
@@ -133,7 +133,7 @@ func checkTermSpecsOpt(c *Ctx, rule, dir string, specs []termSpec, noteExtras bo
 			r.Undecided(rule, dir+"."+sp.fn, "definition", dir, "anchor function not found (renamed or removed): "+sp.why)
 			continue
 		}
-		nf := canonShape(ir.String(pkgPath, n.Func(fn)))
+		nf := canonShape(ir.String(pkgPath, canonLoops(n.Func(fn))))
 		pos := c.Pos(m.Fset, fn.Decl.Pos())
 		ok = false
 		for _, a := range sp.accept {
